@@ -17,6 +17,8 @@ for d in sorted(glob.glob("/verif/seeded/*/")):
     first, last = (own_runs[0], own_runs[-1]) if own_runs else ("", "")
     if not own_runs:
         own_txt = "not run"
+    elif (verdict(first) == verdict(last) or len(own_runs) == 1) and m["checks"].get("own_check_missed_it_before_strengthening") and verdict(last) == "caught":
+        own_txt = "strengthened before the first run (see meta.json) → **caught**"
     elif verdict(first) == verdict(last) or len(own_runs) == 1:
         own_txt = verdict(last)
     else:
